@@ -118,16 +118,28 @@ type Probe struct {
 // per-address overview (count, received amount), the coins executor's local data, per-address fee
 // lists, fee totals per block hash, manage configuration items (read through the executor's state
 // view), and - with the mvcc plugin - the version table and every account at every version.
-func LocalView(n *vnode.Node, e *Env, p Probe) vnode.View {
-	v := vnode.View{}
+func LocalView(n *vnode.Node, e *Env, p Probe) (v vnode.View) {
+	v = vnode.View{}
 	c := n.Chain
+	// a query that panics is an answer of its own (the harness calls the query functions directly)
+	guard := func(key string, f func()) {
+		defer func() {
+			if e := recover(); e != nil {
+				v[key] = fmt.Sprint("PANIC ", e)
+			}
+		}()
+		f()
+	}
 	for i, h := range p.Txs {
-		d, err := c.ProcQueryTxMsg(h)
-		if err != nil {
-			v[fmt.Sprint("tx#", i)] = "ERR " + err.Error()
-		} else {
-			v[fmt.Sprint("tx#", i)] = "OK " + enc(d)
-		}
+		i, h := i, h
+		guard(fmt.Sprint("tx#", i), func() {
+			d, err := c.ProcQueryTxMsg(h)
+			if err != nil {
+				v[fmt.Sprint("tx#", i)] = "ERR " + err.Error()
+			} else {
+				v[fmt.Sprint("tx#", i)] = "OK " + enc(d)
+			}
+		})
 		has, err := c.HasTx(h, 0)
 		v[fmt.Sprint("hastx#", i)] = fmt.Sprint(has, err)
 		tr, err := c.GetTxResultFromDb(h)
@@ -138,8 +150,10 @@ func LocalView(n *vnode.Node, e *Env, p Probe) vnode.View {
 		}
 	}
 	if len(p.Txs) > 0 {
-		ds, err := c.ProcGetTransactionByHashes(p.Txs)
-		v["txs-by-hashes"] = ans(ds, err)
+		guard("txs-by-hashes", func() {
+			ds, err := c.ProcGetTransactionByHashes(p.Txs)
+			v["txs-by-hashes"] = ans(ds, err)
+		})
 	}
 	for ai, a := range p.Addrs {
 		name := fmt.Sprint("addr#", ai)
